@@ -1818,7 +1818,9 @@ func (vc *VC) heapClosureAxiom(l *Loc) {
 	vc.declLog = append(vc.declLog, key)
 	save := vc.globalFact
 	vc.globalFact = true
-	vc.emit("(assert (forall %s (! %s :pattern (%s))))", bind, body, pat)
+	// only objects that exist on entry: what a callee allocates later lives at
+	// references >= alloc@0 and may point anywhere its contract says
+	vc.emit("(assert (forall %s (! (=> (and (< 0 r) (< r alloc@0)) %s) :pattern (%s))))", bind, body, pat)
 	vc.globalFact = save
 }
 
